@@ -986,5 +986,35 @@ func pathConversionCheck(rep *ev.Reporter) {
 			}
 		}
 	}
+	// the relative path of ANY entry with respect to ANY root: inside it, beside it (a sibling whose name merely begins
+	// with the root's name among them), above it. Judged without a second implementation of "relative": joining the answer
+	// to the root must designate the entry, and the answer must be in its shortest form.
+	names := []string{"a", "ab", "a.b", "a/b", "ab/c", "a/b/c", "b", "b/f.t", "a/f.t", "."}
+	for _, b := range []*backend{newMemBackend(), {name: "os", root: sandboxPrefix + "000000000000/w0/r", ctl: &control{isOS: true}}} {
+		if b.name == "mem" {
+			if err := b.materialise(tree{}); err != nil {
+				rep.EngineError("path conversion: %v", err)
+				return
+			}
+		} else {
+			b.fs = filesystem.NewVirtualFileSystem(afero.NewOsFs(), filesystem.StandardFS, filesystem.IdentityPathConverterFunc)
+		}
+		for _, r := range names {
+			for _, e := range names {
+				for _, slash := range []string{"", "/"} {
+					root, entry := filepath.Join(b.root, r)+slash, filepath.Join(b.root, e)
+					cases++
+					got, err := b.fs.ConvertToRelativePath(root, entry)
+					ok := err == nil && len(got) == 1 && filepath.Clean(filepath.Join(root, got[0])) == filepath.Clean(entry) && got[0] == filepath.Clean(got[0]) && !filepath.IsAbs(got[0])
+					if ok && got[0] != "." && !strings.HasPrefix(got[0], "..") && !within(filepath.Clean(entry), filepath.Clean(root)) {
+						ok = false // an answer without a parent reference for an entry that is not below the root
+					}
+					if !ok {
+						rep.Violation("ConvertToRelativePath:"+b.name+":value:root-and-entry-anywhere", map[string]any{"root": root, "path": entry, "got": got, "err": fmt.Sprint(err), "must_satisfy": "Clean(Join(root, answer)) == Clean(path), answer clean and relative"})
+					}
+				}
+			}
+		}
+	}
 	rep.Coverage["path_conversion_cases"] = cases
 }
